@@ -122,7 +122,86 @@ def quiet():
 
 
 def is_climate(case):
-    return case["cls"] in ("ClimateData", "SmallClimate")
+    return case["cls"] in ("ClimateData", "SmallClimate", "LoadClimate")
+
+
+def is_load(case):
+    return case["cls"] in ("LoadClimate", "LoadData")
+
+
+class FakeVar:
+    """stand-in for a NetCDF variable: `var[:]` is the array, `.long_name`, `len(var)`"""
+    def __init__(self, a, long_name="a long name"):
+        self._a, self.long_name = np.asarray(a), long_name
+
+    def __getitem__(self, key):
+        return self._a[key]
+
+    def __len__(self):
+        return len(self._a)
+
+
+class FakeDataset:
+    """in-memory stand-in for `netCDF4.Dataset` / `h5netcdf.legacyapi.Dataset` (no HDF5 backend
+    is installed here): the *real* `Data.Load` / `ClimateData.Load` / `_load_data` /
+    `_get_netcdf_data` / `GeoGrid.RegularGrid` code runs on it"""
+    files = {}
+
+    def __init__(self, file_name, mode="r"):
+        self.variables = FakeDataset.files[file_name]
+
+    def ncattrs(self):
+        return []
+
+    def close(self):
+        pass
+
+
+def load_obj(case, window):
+    """`Data.Load` / `ClimateData.Load` of a regular ("NetCDF": 3-D or 4-D variable) or an
+    irregular ("iNetCDF": 2-D or 3-D variable) file"""
+    import pyunicorn.core.data as data_mod
+    from pyunicorn.core import Data
+    from pyunicorn.climate import ClimateData
+    ld = case["load"]
+    T = len(case["time"])
+    obs = np.array(case["obs"], dtype="float64")
+    if ld["ftype"] == "NetCDF":
+        arr = obs.reshape(T, len(ld["latg"]), len(ld["long"]))
+    else:
+        arr = obs
+    level = ld.get("level")
+    if ld["nlev"]:
+        # a vertical axis: the requested (default: the first) level holds the data
+        shp = list(arr.shape)
+        big = np.full([shp[0], ld["nlev"]] + shp[1:], 12345.0)
+        big[:, 0 if level is None else level] = arr
+        arr = big
+    names = ld["names"]
+    variables = {"obsvar": FakeVar(arr), names["time"]: FakeVar(np.array(case["time"]))}
+    if ld["ftype"] == "NetCDF":
+        variables[names["lat"]] = FakeVar(np.array(ld["latg"]))
+        variables[names["lon"]] = FakeVar(np.array(ld["long"]))
+    else:
+        variables["grid_center_lat"] = FakeVar(np.array(case["lat"]))
+        variables["grid_center_lon"] = FakeVar(np.array(case["lon"]))
+    FakeDataset.files["mem.nc"] = variables
+    old = getattr(data_mod, "Dataset", None)
+    data_mod.Dataset = FakeDataset
+    try:
+        kw = dict(file_name="mem.nc", observable_name="obsvar", file_type=ld["ftype"],
+                  window=conv_window(window, case.get("btype", "float")), silence_level=2,
+                  vertical_level=level)
+        if names != {"lat": "lat", "lon": "lon", "time": "time"}:
+            kw["dimension_names"] = names
+        if case["cls"] == "LoadClimate":
+            return ClimateData.Load(time_cycle=case["c"], **kw)
+        return Data.Load(**kw)
+    finally:
+        if old is None:
+            del data_mod.Dataset
+        else:
+            data_mod.Dataset = old
 
 
 def conv_window(w, btype):
@@ -165,6 +244,8 @@ def make_obj(case, window="init", base=None, plain=False, scale=None):
     if case["cls"].startswith("Small") and not plain and base is None:
         assert window is None
         return ClimateData.SmallTestData() if case["cls"] == "SmallClimate" else Data.SmallTestData()
+    if is_load(case) and not plain and base is None and scale is None:
+        return load_obj(case, window)
     b = base or case
     gdt = "float64" if plain else case.get("gdtype", "float64")
     time = np.array(b["time"], dtype=float)
@@ -260,6 +341,12 @@ def do_op(obj, tok, case):
 
 
 def request_of(case, ops=None):
+    if is_load(case) and case["load"]["ftype"] == "NetCDF":
+        # regular file: the model computes the node sequences from the two grid axes itself
+        return " ".join(
+            ["runreg", str(case["c"]), str(int(case["flag"])), case["init"],
+             enc_vec(case["time"]), enc_vec(case["load"]["latg"]), enc_vec(case["load"]["long"]),
+             ";".join(enc_vec(r) for r in case["obs"])] + (case["ops"] if ops is None else ops))
     return " ".join(
         ["run", str(case["c"]), str(int(case["flag"])), case["init"],
          enc_vec(case["time"]), enc_vec(case["lat"]), enc_vec(case["lon"]),
@@ -871,6 +958,66 @@ def gen_case(ctx, rng, exact, quick):
             "layout": layout, "btype": btype, "scale": scale}
 
 
+def gen_load_case(ctx, rng):
+    """a file loaded through `Data.Load` / `ClimateData.Load` (in-memory Dataset stand-in):
+    regular grids (3-D / 4-D variable) and irregular ones (2-D / 3-D), default and custom
+    dimension names, with and without constructor window, then an ordinary history.
+    The loader casts everything to float32: integer data with integer means below 2^24."""
+    cls = "LoadClimate" if rng.random() < 0.8 else "LoadData"
+    T = rng.randrange(1, 13)
+    c = rng.choice([1, 2, 3, 4, 5, 12, 13])
+    if c > T and rng.random() < 0.6:
+        c = rng.randrange(1, T + 1)
+    ftype = rng.choice(["NetCDF", "NetCDF", "iNetCDF"])
+    if ftype == "NetCDF":
+        latg = sorted(rng.sample([-45.0, -22.5, 0.0, 7.5, 22.5, 45.0, 67.5], rng.randrange(1, 4)))
+        long = rng.sample([-90.0, 0.0, 11.25, 45.0, 90.0, 135.0], rng.randrange(1, 4))
+        if rng.random() < 0.5:
+            long.sort()
+        lat = [la for la in latg for _ in long]       # definition: every latitude with all longitudes
+        lon = [lo for _ in latg for lo in long]
+    else:
+        latg = long = None
+        N = rng.randrange(1, 6)
+        lat = gen_axis(rng, N, -90.0, 90.0, 22.5)
+        lon = gen_axis(rng, N, 0.0, 180.0, 45.0)
+    N = len(lat)
+    tstep = rng.choice([0.5, 1.0, 1.5])
+    time = [rng.choice([0.0, 10.5, 2.0 ** 20]) + tstep * k for k in range(T)]
+    time = [time[0] + tstep * k for k in range(T)]
+    L = lcm_upto(-(-T // c))
+    obs = [[float(L * rng.randrange(-20, 21)) for _ in range(N)] for _ in range(T)]
+    nlev = rng.choice([0, 0, 1, 3])
+    level = None if (nlev == 0 or rng.random() < 0.4) else rng.randrange(nlev)
+    names = {"lat": "lat", "lon": "lon", "time": "time"}
+    if rng.random() < 0.3:
+        names = {"lat": "latitude", "lon": "longitude", "time": "t"}
+    climate = cls == "LoadClimate"
+
+    def win():
+        j, i0, i1 = rng.randrange(N), rng.randrange(T), rng.randrange(T)
+        i0, i1 = min(i0, i1), max(i0, i1)
+        ex = [0.0, 0.0, 7.5, 22.5, 45.0]
+        return dict(zip(WKEYS, (time[i0] - rng.choice([0, tstep / 2]), time[i1] + rng.choice([0, tstep / 2]),
+                                lat[j] - rng.choice(ex), lat[j] + rng.choice(ex),
+                                lon[j] - rng.choice(ex), lon[j] + rng.choice(ex))))
+    init = enc_win(win()) if rng.random() < 0.4 else "G"
+    qs = ["o", "g", "w"] + (["pm", "an", "pi", "cs"] if climate else [])
+    ops = list(qs)
+    for _ in range(rng.randrange(1, 4)):
+        r = rng.random()
+        ops.append("G" if r < 0.2 else "Wc" if r < 0.3 else enc_win(win()))
+        ops += [q for q in qs if rng.random() < 0.6]
+    ctx.count(f"class:{cls}")
+    ctx.count(f"load:{ftype}:{'4-D' if nlev and ftype == 'NetCDF' else '3-D' if (nlev or ftype == 'NetCDF') else '2-D'}")
+    ctx.count("load:" + ("custom-dimension-names" if names["lat"] != "lat" else "default-names"))
+    return {"cls": cls, "c": c, "flag": 0, "init": init, "time": time, "lat": lat, "lon": lon,
+            "obs": obs, "dtype": "float32", "ops": ops, "gdtype": "float32", "layout": "C",
+            "btype": rng.choice(["float", "int", "np32", "mixed"]), "scale": None,
+            "load": {"ftype": ftype, "latg": latg, "long": long, "nlev": nlev, "level": level,
+                     "names": names}}
+
+
 def edge_cases():
     """hand-written corner histories (always run first)"""
     base = {"cls": "ClimateData", "c": 3, "flag": 0, "init": "G", "dtype": "float64",
@@ -984,6 +1131,7 @@ def run(ctx):
     cases = [(c, True) for c in edge_cases()]
     cases += [(gen_case(ctx, rng, True, quick), True) for _ in range(n_exact)]
     cases += [(gen_case(ctx, rng, False, quick), False) for _ in range(n_dyadic)]
+    cases += [(gen_load_case(ctx, rng), True) for _ in range(150 if quick else 1500)]
 
     reqs, impl, exacts = [], [], []
     for case, exact in cases:
@@ -1132,8 +1280,14 @@ def shrink_failures(ctx, case, exact, nfail):
 
 def replay(ctx, rp):
     case = rp["replay"]
+    if "T" in case and "cls" not in case:
+        T, c = case["T"], case["c"]
+        if int(T / c) != T // c and T < 2 ** 53:
+            ctx.fail({"class": "ClimateData", "method": "phase_indices", "kind": "range_years"},
+                     f"int(T / c) != T // c for T = {T}, c = {c}", dict(case))
+        return
     case = {k: case[k] for k in ("cls", "c", "flag", "init", "time", "lat", "lon", "obs",
-                                 "dtype", "ops", "gdtype", "layout", "btype", "scale") if k in case}
+                                 "dtype", "ops", "gdtype", "layout", "btype", "scale", "load") if k in case}
     if case.get("scale"):
         case["scale"] = tuple(case["scale"])
     run_case(ctx, case, False, oracle=True)
